@@ -9,7 +9,7 @@ VERIF = Path(__file__).resolve().parents[1]
 CLAIMED = {
     "C01": (
         "Lean 4 simulation proof: Props.C01.sound / sound_exec — every untagged end state of the model of SEVM.run's exploration core (worklist, dispatch, Exec.check, jumpi with visit counters and loop bound, --depth, Path.append/concretization), under every valuation satisfying its path, is reached by the reference EVM (Spec.Evm) with exactly that halt, those returned bytes and that storage/transient storage of the executing account (WRel); no bound on program size, steps or inputs, no assumption on the solver; word instructions through C06's op_exact. Tie: exact model-vs-implementation comparison of the exploration on generated core programs with a fixed oracle, plus pointwise differential of the REAL SEVM against the Lean reference EVM on structured programs over the whole supported instruction set (memory, storage, hashing, logs, calls, creations) with solver-found and random inputs",
-        "Proof for the core instruction set (stack/word/control/calldata/environment instructions, memory MLOAD/MSTORE/MSTORE8/CALLDATACOPY/CODECOPY, RETURN/REVERT with data, RETURNDATASIZE/COPY, SLOAD/SSTORE/TLOAD/TSTORE on concrete slots < 2^64 with the static-context check: the theorem covers halt kind, returned bytes AND the storage of the halting world; everything else ends the model path as stuck, so the theorem is stated for all programs); Props.C01.sound_calls extends the simulation to nested message calls (Model.SevmCalls.runC: CALL/CALLCODE with literal zero value, DELEGATECALL, STATICCALL to literal targets with known code, any nesting depth, snapshot rollback of every account's storage on a failing callee, static-flag inheritance, return-area truncation, RETURNDATASIZE/COPY, LOG0-4 with rollback, EXTCODESIZE/EXTCODECOPY/CODESIZE on literal addresses) against Spec.Evm.exec, with WRelM describing the storage of every modelled account in the halting world; BALANCE/SELFBALANCE and value-bearing CALL/CALLCODE are modelled on halmos' Store-chain balance array (insufficient-funds split, debit-then-credit, rollback; WRelM.bal states the balances of the halting world) under the visible hypotheses BalHyp (I's balance_0 is the start world's balances) and, for completeness, BalBound (total supply <= 2^128, the documented balance assumption, proved preserved by transfers); symbolic targets, precompile/cheat addresses and depth 1024 end the model path as stuck; SHA3 of a memory range as a value is modelled with exactly the conditions sha3_data appends (sound_calls needs only ShaInterp: I's f_sha3_N is Keccak-256; complete_calls/flagged_calls take the visible assumption ShaOK/HashIdeal that those appended conditions hold along the run); CREATE is modelled (Model.SevmCalls createOut/createEnd, tied to the real SEVM by the correspondence run, model-level theorems create_frame_model/create_fail_model/create_success_model in Props.C09Core) and its simulation is proved, including value-bearing creations (sound_calls_create / complete_calls_create / flagged_calls_create under the visible allocator-agreement hypothesis p.newAddress (w.created + n) = (allocBase + n) mod 2^160; the relation is stated against the start world extended by the created accounts' code and the advanced allocator counter); the create-free sound_calls/complete_calls/flagged_calls carry cfg.create = false and are stated on the plain start world (runC_noCr); hashed storage slots are modelled for single-level 256-bit-key mappings and dynamic arrays (Cfg.hsto; correspondence on ~3000 programs) with the cell lemma hSelect_ok and machine-level soundness sound_calls_hsto_partial under the visible hypothesis HstoOK (no collisions among the hashed cells met / with scalar slots; partial: it also assumes key well-formedness and that the location term denotes the keccak location); completeness for hashed slots is not proved (complete_calls / flagged_calls carry cfg.hsto = false); nested mappings, packed keys, generic layout, CREATE2 and symbolic init code are covered by the differential run only (C08/C09 prove their components separately); halmos' own memory-limit errors are tagged end states about which nothing is claimed (hypothesis cfg.maxMem + 32 <= memLimit is visible in the statements). The 1024-item stack limit, which halmos does not model, is a tagged end state of the model (stackLimit) about which nothing is claimed, and a recorded known finding",
+        "Proof for the core instruction set (stack/word/control/calldata/environment instructions, memory MLOAD/MSTORE/MSTORE8/CALLDATACOPY/CODECOPY, RETURN/REVERT with data, RETURNDATASIZE/COPY, SLOAD/SSTORE/TLOAD/TSTORE on concrete slots < 2^64 with the static-context check: the theorem covers halt kind, returned bytes AND the storage of the halting world; everything else ends the model path as stuck, so the theorem is stated for all programs); Props.C01.sound_calls extends the simulation to nested message calls (Model.SevmCalls.runC: CALL/CALLCODE with literal zero value, DELEGATECALL, STATICCALL to literal targets with known code, any nesting depth, snapshot rollback of every account's storage on a failing callee, static-flag inheritance, return-area truncation, RETURNDATASIZE/COPY, LOG0-4 with rollback, EXTCODESIZE/EXTCODECOPY/CODESIZE on literal addresses) against Spec.Evm.exec, with WRelM describing the storage of every modelled account in the halting world; BALANCE/SELFBALANCE and value-bearing CALL/CALLCODE are modelled on halmos' Store-chain balance array (insufficient-funds split, debit-then-credit, rollback; WRelM.bal states the balances of the halting world) under the visible hypotheses BalHyp (I's balance_0 is the start world's balances) and, for completeness, BalBound (total supply <= 2^128, the documented balance assumption, proved preserved by transfers); symbolic targets, precompile/cheat addresses and depth 1024 end the model path as stuck; SHA3 of a memory range as a value is modelled with exactly the conditions sha3_data appends (sound_calls needs only ShaInterp: I's f_sha3_N is Keccak-256; complete_calls/flagged_calls take the visible assumption ShaOK/HashIdeal that those appended conditions hold along the run); CREATE is modelled (Model.SevmCalls createOut/createEnd, tied to the real SEVM by the correspondence run, model-level theorems create_frame_model/create_fail_model/create_success_model in Props.C09Core) and its simulation is proved, including value-bearing creations (sound_calls_create / complete_calls_create / flagged_calls_create under the visible allocator-agreement hypothesis p.newAddress (w.created + n) = (allocBase + n) mod 2^160; the relation is stated against the start world extended by the created accounts' code and the advanced allocator counter); the create-free sound_calls/complete_calls/flagged_calls carry cfg.create = false and are stated on the plain start world (runC_noCr); hashed storage slots are modelled for single-level 256-bit-key mappings and dynamic arrays (Cfg.hsto; correspondence on ~3000 programs) with machine-level theorems in all three directions (sound_calls_hsto, complete_calls_hsto, flagged_calls_hsto; the location tie decodeSlot_ok and chain well-formedness are proved) under the visible hash-ideal hypothesis HstoOK (the hashed location is >= 2^64 and collides with no other cell met on the path) and, for completeness, HEmptyZero; nested mappings, packed keys, generic layout, CREATE2 and symbolic init code are covered by the differential run only (C08/C09 prove their components separately); halmos' own memory-limit errors are tagged end states about which nothing is claimed (hypothesis cfg.maxMem + 32 <= memLimit is visible in the statements). The 1024-item stack limit, which halmos does not model, is a tagged end state of the model (stackLimit) about which nothing is claimed, and a recorded known finding",
         "Trusted: Lean kernel, Spec.Evm as the meaning of EVM execution, Model.Sevm (hand model; int_of substitution, calldata size candidates, PUSH32 empty-keccak and the dynamic-array overflow quick check are approximated as stuck), z3 only as a search aid for inputs; known findings recorded for MSIZE, value-bearing CALL in a static frame, JUMPI with symbolic condition and invalid destination",
         "DESIGN.md §4 C01",
     ),
